@@ -1563,6 +1563,12 @@ func (ex *Exec) rangeStmt(st *State, s *ast.RangeStmt, label string) []flow {
 		// ceil(len/n)
 		total = nil
 	}
+	// small constant-length array ranges without a loop contract are unrolled
+	if kind == itArray && ls == nil {
+		if n := x.T.Underlying().(*types.Array).Len(); n <= 8 {
+			return ex.unrollArrayRange(st, s, label, x, int(n))
+		}
+	}
 	k0 := intLit(0)
 	ex.preTouch(st, s.Body)
 	ex.recordLoopPre(st, path)
@@ -1655,12 +1661,13 @@ func (ex *Exec) rangeStmt(st *State, s *ast.RangeStmt, label string) []flow {
 		}
 	}
 	d0 := ex.evalDecr(body, ls, path, nil, counter, k)
-	if _, clash := body.bound[counter]; !clash && keyName == "" {
+	bindCounter := false
+	if _, clash := body.bound[counter]; !clash && keyName != counter {
 		body.bound[counter] = &Val{T: tInt, Term: k}
-		defer func() {}()
+		bindCounter = true
 	}
 	for _, f := range ex.block(body, s.Body.List) {
-		if f.st != nil && keyName == "" {
+		if f.st != nil && bindCounter {
 			delete(f.st.bound, counter)
 		}
 		switch {
@@ -1676,6 +1683,43 @@ func (ex *Exec) rangeStmt(st *State, s *ast.RangeStmt, label string) []flow {
 		default:
 			out = append(out, f)
 		}
+	}
+	return out
+}
+
+// unrollArrayRange executes `for i, v := range arr` for a short array by
+// unrolling (the range expression is evaluated once, as Go does).
+func (ex *Exec) unrollArrayRange(st *State, s *ast.RangeStmt, label string, x *Val, n int) []flow {
+	el := x.T.Underlying().(*types.Array).Elem()
+	define := s.Tok == token.DEFINE
+	cur := []*State{st}
+	var out []flow
+	for i := 0; i < n; i++ {
+		var next []*State
+		for _, c := range cur {
+			if s.Key != nil {
+				ex.assign(c, s.Key, &Val{T: tInt, Term: intLit(int64(i))}, define)
+			}
+			if s.Value != nil {
+				ex.assign(c, s.Value, &Val{T: el, Term: sel(x.Term, intLit(int64(i)))}, define)
+			}
+			prefix := len(c.pc)
+			fl := ex.mergeNormals(prefix, ex.block(c, s.Body.List))
+			for _, f := range fl {
+				switch {
+				case f.kind == flowNormal || (f.kind == flowContinue && (f.label == "" || f.label == label)):
+					next = append(next, f.st)
+				case f.kind == flowBreak && (f.label == "" || f.label == label):
+					out = append(out, flow{kind: flowNormal, st: f.st})
+				default:
+					out = append(out, f)
+				}
+			}
+		}
+		cur = next
+	}
+	for _, c := range cur {
+		out = append(out, flow{kind: flowNormal, st: c})
 	}
 	return out
 }
